@@ -1,0 +1,8 @@
+//go:build !verif
+
+// Package verifhook provides yield points for the external verification harness.
+// Without the build tag "verif" they are empty.
+package verifhook
+
+// At is a yield point (empty in regular builds).
+func At(point string, arg interface{}) {}
